@@ -58,3 +58,17 @@ package codec
 //@   ensures [unparsable-key] calls(x509.ParsePKIXPublicKey) == 1 && ret(x509.ParsePKIXPublicKey, 1) != nil ==> result0 == nil && result1 == ret(x509.ParsePKIXPublicKey, 1)
 //@   ensures [other-key-types-rejected] calls(x509.ParsePKIXPublicKey) == 1 && ret(x509.ParsePKIXPublicKey, 1) == nil && !typeis(ret(x509.ParsePKIXPublicKey, 0), ptr(rsa.PublicKey)) ==> result0 == nil && result1 == ErrNotRsaKey
 //@   ensures [holds-the-parsed-key-with-padding-room] result1 == nil ==> typeis(result0, ptr(rsaEncryptor)) && unbox(result0, ptr(rsaEncryptor)).publicKey == unbox(ret(x509.ParsePKIXPublicKey, 0), ptr(rsa.PublicKey)) && unbox(result0, ptr(rsaEncryptor)).bytesLimit == (ret(BitLen) >> 3) - 11
+
+// ---- AES-ECB body decryption (the encrypted-request path of the signature gate) ----
+// pkcs5UnPadding: the last byte says how much padding to cut; an empty input has no last byte and is a padding
+// error (an encrypted request whose body is only line breaks base64-decodes to zero bytes), as is a padding length
+// that does not fit. Never an index out of range.
+//@ func pkcs5UnPadding
+//@   prop C04
+//@   observe Len = len(src)
+//@   replay codec_unpadding
+//@   replay-assume len(src) <= 64
+//@   ensures [empty-input-is-a-padding-error] len(src) == 0 ==> result1 == ErrPaddingSize && result0 == nil
+//@   ensures [padding-cut] len(src) > 0 && result1 == nil ==> len(result0) == len(src) - src[len(src) - 1] && src[len(src) - 1] < len(src) && src[len(src) - 1] <= blockSize
+//@   ensures [unfitting-padding-is-an-error] len(src) > 0 && (src[len(src) - 1] >= len(src) || src[len(src) - 1] > blockSize) ==> result1 == ErrPaddingSize && result0 == nil
+//@   modifies nothing
